@@ -121,13 +121,13 @@ Local Close Scope Z_scope.
 (* ---- projected update steps ---- *)
 Lemma thm_bounds_steps : forall (V : Type) (vle : V -> V -> Prop) (vmax : V -> V -> V),
   (forall a b, vle a (vmax a b)) ->
-  forall (vadd vsub vmul vdiv : V -> V -> V) (vsqrt : V -> V) (vpow : V -> nat -> V) (v0 v1 : V) (lb : option V),
+  forall (vadd vsub vmul vdiv : V -> V -> V) (vsqrt : V -> V) (vpow : V -> nat -> V) (v0 v1 : V) (vpos : V -> bool) (lb : option V),
   (forall rate decay nfails xs gs, Forall (above V vle lb) (sgd_step V vmax vsub vmul vpow rate decay nfails lb xs gs)) /\
   (forall rate decay b1 b2 eps ei nf o xs gs,
      Forall (above V vle lb) (fst (adam_step V vmax vadd vsub vmul vdiv vsqrt vpow v0 v1 rate decay b1 b2 eps ei nf lb o xs gs))) /\
-  (forall gsum xs gs, Forall (above V vle lb) (fst (adagrad_step V vmax vadd vsub vmul vdiv vsqrt v0 v1 lb gsum xs gs))).
+  (forall gsum xs gs, Forall (above V vle lb) (fst (adagrad_step V vmax vadd vsub vmul vdiv vsqrt v0 v1 vpos lb gsum xs gs))).
 Proof.
-  intros V vle vmax H vadd vsub vmul vdiv vsqrt vpow v0 v1 lb. repeat split; intros.
+  intros V vle vmax H vadd vsub vmul vdiv vsqrt vpow v0 v1 vpos lb. repeat split; intros.
   - apply (sgd_step_above V vle vmax H).
   - apply (adam_step_above V vle vmax H).
   - apply (adagrad_step_above V vle vmax H).
